@@ -10,6 +10,7 @@ import os
 import shutil
 import subprocess
 import sys
+import time
 
 REPO = os.environ.get("VERIF_REPO", "/repo")
 VERIF = os.path.dirname(os.path.dirname(os.path.abspath(__file__)))
@@ -83,12 +84,30 @@ def _run(cmd, cwd=None):
     return r.stdout
 
 
+PRUNE_AFTER_S = 3 * 3600
+
+
 def _prune(name, keep):
+    """Remove stale variants of a build product.  A variant that was used in the last hours is kept: another check (or a
+    scan of a seeded change) may still be starting workers from it."""
     if not os.path.isdir(BUILD):
         return
+    now = time.time()
     for d in os.listdir(BUILD):
         if d.startswith(name + "-") and d != keep and not d.endswith(".lock"):
-            shutil.rmtree(os.path.join(BUILD, d), ignore_errors=True)
+            try:
+                used = os.path.getmtime(os.path.join(BUILD, d, ".done"))
+            except OSError:
+                used = 0
+            if now - used > PRUNE_AFTER_S:
+                shutil.rmtree(os.path.join(BUILD, d), ignore_errors=True)
+
+
+def _mark_used(d):
+    try:
+        os.utime(os.path.join(d, ".done"), None)
+    except OSError:
+        pass
 
 
 def ninja_objects(name, flags=None, per_file=None, exclude=(), cxx=None):
@@ -104,6 +123,7 @@ def ninja_objects(name, flags=None, per_file=None, exclude=(), cxx=None):
     objs = [os.path.join(d, s.replace(".cc", ".o")) for s in srcs]
     with Lock(os.path.join(BUILD, name + ".lock")):
         if os.path.exists(os.path.join(d, ".done")):
+            _mark_used(d)
             return d, objs
         _prune(name, dname)
         os.makedirs(d, exist_ok=True)
@@ -133,6 +153,7 @@ def harness(name, sources, objs, flags=None, libs=(), deps=(), cxx=None):
     exe = os.path.join(d, name)
     with Lock(os.path.join(BUILD, name + ".lock")):
         if os.path.exists(os.path.join(d, ".done")):
+            _mark_used(d)
             return exe
         _prune(name, dname)
         os.makedirs(d, exist_ok=True)
